@@ -338,9 +338,6 @@ func c12Run(rc *simrt.RunCtx) {
 		if who == "server" {
 			pl, cl = np.c2s, np.s2c
 		}
-		pl.mu.Lock()
-		pl.stallUntil = 1 << 62
-		pl.mu.Unlock()
 		if phase == "idle" || phase == "blocked-recv" || phase == "peer-burst" {
 			// (these phases install no other filter) remember whether the
 			// closer sent DATA - a ping - after the stall began: the peer's
@@ -354,9 +351,19 @@ func c12Run(rc *simrt.RunCtx) {
 				return 0, 0
 			}
 			cl.mu.Unlock()
+			// DATA the closer sent before this instant is delivered - and
+			// acknowledged by the peer - within two latencies: only then does
+			// the stall begin (found by the thorough tier: a ping sent 3 ms
+			// before the stall was delivered after it began, the peer's
+			// receive loop blocked in the stalled ACK and never read the FIN)
+			time.Sleep(2*lat + time.Millisecond)
 		} else {
 			peerStallDirty.Store(true)
 		}
+		pl.mu.Lock()
+		pl.stallUntil = 1 << 62
+		pl.mu.Unlock()
+		tClose = rc.Now()
 		rc.Fault("peer-stall-at-close")
 		if lead := rc.Pick(4, "wl.stall-lead"); lead > 0 {
 			time.Sleep(time.Duration(lead) * tk.resend)
